@@ -7,7 +7,7 @@ import Dmn.Driver.Codec
 
 * `(c08 call <mode> <name> positional v…)`   → `(ok v)` | `(panic <site>)` | `(unmodelled)`
 * `(c08 call <mode> <name> named (<pname> v)…)`
-* `(c08 spec <name> v…)`                     → `(spec v)` | `(nospec)`
+* `(c08 spec <name> v…)`                     → `(spec v)` | `(nospec)` | `(specs-differ old new)` (`mode`: `Spec.modeV` ≠ `Spec.mode`)
 * `(c08 offending)`                          → the signatures on which the tables differ
 
 `<mode>` is `checked` or `wrapping`; names travel as code-point lists. -/
@@ -50,9 +50,16 @@ def handle (args : List Sexp) : String :=
   | .atom "spec" :: name :: vs =>
     match Sexp.str? name, vs.mapM valueOfSexp with
     | some name, some vs =>
-      match Spec.apply name vs with
-      | some v => toString (Sexp.list [.atom "spec", sexpOfValue v])
-      | none => "(nospec)"
+      -- `mode`, `stddev`: the declarative specification (`Spec.mode`, `Spec.stddev`; theorems
+      -- `core_mode_spec`, `core_stddev_spec`); where the older executable form `Spec.modeV` also answers,
+      -- the two must agree — `(specs-differ old new)` otherwise
+      match Spec.applyStats name vs, Spec.apply name vs with
+      | some v, some old =>
+        if sexpOfValue v == sexpOfValue old then toString (Sexp.list [.atom "spec", sexpOfValue v])
+        else toString (Sexp.list [.atom "specs-differ", sexpOfValue old, sexpOfValue v])
+      | some v, none => toString (Sexp.list [.atom "spec", sexpOfValue v])
+      | none, some v => toString (Sexp.list [.atom "spec", sexpOfValue v])
+      | none, none => "(nospec)"
     | _, _ => "(error bad-request)"
   -- `sort(list, function(x, y) <x op y>)`: the merge sort of `core::sort` on the named relation
   -- with typed parameters `function(x: T, y: T)` the relation is named `<op>:<T>`: the items are
